@@ -541,9 +541,13 @@ func c08types(c *core.Ctx, sch *schemagen.Schema) {
 	// durations and byte sizes
 	for _, a := range []struct{ attr, good, lit, bad string }{
 		{"stop_grace_period", "1m30s", "1m30s", "1x"}, {"mem_limit", "1k", "1024", "1x"}, {"shm_size", "2m", "2097152", "zz"}, {"mem_reservation", "1g", "1073741824", "1q"},
+		// plain integers at and beyond what a float64 holds exactly: the variable form gives the same integer as the literal
+		{"mem_limit", "9007199254740993", "9007199254740993", "1x"}, {"mem_limit", "9223372036854775807", "9223372036854775807", "1x"},
+		{"shm_size", "9007199254740993", "9007199254740993", "zz"}, {"mem_reservation", "4611686018427387905", "4611686018427387905", "1q"},
+		{"memswap_limit", "9007199254740993", "9007199254740993", "1x"}, {"memswap_limit", "-1", "-1", "1x"},
 	} {
 		a := a
-		c.Do("type/"+a.attr, func() core.Outcome {
+		c.Do("type/"+a.attr+"/"+a.good, func() core.Outcome {
 			base := &Scn{Files: map[string]string{}}
 			mk := func(v string) string { return "services:\n  s:\n    image: i\n    " + a.attr + ": " + v + "\n" }
 			pl, el := c08loadDoc(base, mk(a.lit), nil)
